@@ -40,6 +40,16 @@ def run(chk, prog):
             chk.require(called, "CALLABLE-AS-DATA", f"{fname}/{ast.unparse(n)}", f"{ast.unparse(n)} used as a value",
                         derived=f"`{ast.unparse(p)[:120]}` passes the bound method", expected=f"{ast.unparse(n)}() - the tensor", where=f"{m.rel}:{n.lineno}")
     chk.floor("accessor use sites", n_uses, 4)
+    # SIBLING agreement: transition_tensor and observation_tensor are the same construction over their own fields (grid, truncation, sigma): after renaming
+    # the fields the two bodies must be the same expression - a sign that differs in one of them (`else -np.inf` vs `else np.inf` for sigma = 0) is a defect
+    import re as _re
+    def _norm_src(fn_):
+        txt = ast.unparse(fn_.body[-1])
+        return _re.sub(r"_(trans|obs)\b", "_X", txt)
+    if {"transition_tensor", "observation_tensor"} <= set(cfg.methods):
+        a_, b_ = _norm_src(cfg.methods["transition_tensor"]), _norm_src(cfg.methods["observation_tensor"])
+        chk.require(a_ == b_, "SIBLING-DENSITY", "DiscreteHMMConfiguration/tensor-accessors", "transition_tensor vs observation_tensor", derived=f"transition: {a_[:200]}  |  observation: {b_[:200]}",
+                    expected="the same construction up to the field suffix (_trans / _obs)", where=f"{m.rel}:{cfg.methods['transition_tensor'].lineno}")
     ev = Evaluator(prog)
     CFG, OBS = P("config"), P("observation_sequence")
     TT = ("call", ("attr", CFG, "transition_tensor"), (), ())
@@ -69,6 +79,9 @@ def run(chk, prog):
     prior, trn, obn = env.get("prior"), env.get("transition_n"), env.get("obs_n")
     if prior is None or trn is None or obn is None:
         raise AnalysisError("forward_filtering_backward_sampling: prior / transition_n / obs_n not found")
+    for nm_, t_ in (("prior", prior), ("transition_n", trn), ("obs_n", obn)):
+        chk.require(is_call(t_, "log_softmax") and not mentions_any(t_, lambda x: is_call(x, "softmax")), "FFBS-RECURSION", f"ffbs/{nm_}-logspace", "normalised log-probabilities", derived=show(t_)[:120],
+                    expected="jax.nn.log_softmax(...) - log(softmax(.)) underflows to -inf for logits far below the maximum", where=where2)
     ix = [x for x in subterms(prior) if is_t(x, "index") and x[1] == TT]
     chk.require(len(ix) == 1 and okh and ix[0] == init_density, "SIBLING-DENSITY", "ffbs/initial", "sampler's initial row equals the density's", derived=show(prior)[:160],
                 expected="log softmax of the same row of config.transition_tensor()", where=where2)
@@ -101,13 +114,16 @@ def run(chk, prog):
         log_ = lambda x: ("call", ("global", "jax.numpy.log"), (x,), ())
         ALL_ = ("sliceobj", C(None), C(None), C(None))
         carry_t = sc.carry_in
-        want_y = {frozenset([log_(("index", carry_t, ZL))]): 1, frozenset([log_(("index", sm_(lg_("observation_distribution")), ("tuple", (ZL, YL))))]): 1}
-        alt_y = {frozenset([log_(("index", carry_t, ZL))]): 1, frozenset([("index", ("call", ("global", "jax.nn.log_softmax"), (lg_("observation_distribution"),), ()), ("tuple", (ZL, YL)))]): 1}
-        chk.require(lin(y) in (want_y, alt_y), "FFBS-RECURSION", "latent_sequence_posterior/step-form", "step log-probability", derived=show_lin(lin(y))[:300],
-                    expected="log carry[z_t] + log softmax(observation logits)[z_t, y_t] (rows index the latent state)", where=chk.where(m, lp))
-        chk.require(co in (sm_(("index", lg_("transition_distribution"), ("tuple", (ZL, ALL_)))), sm_(("index", lg_("transition_distribution"), ZL))), "FFBS-RECURSION", "latent_sequence_posterior/carry-form", "next carry",
-                    derived=show(co)[:200], expected="softmax(transition logits[z_t, :]) - the row of the current latent state", where=chk.where(m, lp))
-        chk.require(sc.init == sm_(lg_("initial_distribution")), "FFBS-RECURSION", "latent_sequence_posterior/init", "initial carry", derived=show(sc.init)[:200], expected="softmax(initial logits)", where=chk.where(m, lp))
+        # the recursion is carried in LOG space (log_softmax): log(softmax(x)) underflows to -inf once a logit is ~100 below the maximum (sigma = 0.01), where
+        # the exact log posterior is finite.  Step: carry[z_t] + log_softmax(obs logits)[z_t, y_t]; carry' = log_softmax(trans logits[z_t, :]); carry_0 = log_softmax(initial logits)
+        lsm_ = lambda x: ("call", ("global", "jax.nn.log_softmax"), (x,), ())
+        want_y = {frozenset([("index", carry_t, ZL)]): 1, frozenset([("index", lsm_(lg_("observation_distribution")), ("tuple", (ZL, YL)))]): 1}
+        uses_log_of_softmax = mentions_any(("tuple", (y, co, sc.init)), lambda x: is_call(x, "log") and x[2] and mentions_any(x[2][0], lambda z: is_call(z, "softmax")))
+        chk.require(lin(y) == want_y and not uses_log_of_softmax, "FFBS-RECURSION", "latent_sequence_posterior/step-form", "step log-probability", derived=show_lin(lin(y))[:300],
+                    expected="carry[z_t] + log_softmax(observation logits)[z_t, y_t] (rows index the latent state; log space, no log(softmax(.)))", where=chk.where(m, lp))
+        chk.require(co in (lsm_(("index", lg_("transition_distribution"), ("tuple", (ZL, ALL_)))), lsm_(("index", lg_("transition_distribution"), ZL))), "FFBS-RECURSION", "latent_sequence_posterior/carry-form", "next carry",
+                    derived=show(co)[:200], expected="log_softmax(transition logits[z_t, :]) - the row of the current latent state", where=chk.where(m, lp))
+        chk.require(sc.init == lsm_(lg_("initial_distribution")), "FFBS-RECURSION", "latent_sequence_posterior/init", "initial carry", derived=show(sc.init)[:200], expected="log_softmax(initial logits)", where=chk.where(m, lp))
         xs = sc.xs
         chk.require(is_t(xs, "tuple") and xs[1] == (P("latent_point"), OBS), "IDX-ALIGN", "latent_sequence_posterior/xs", "latent and observation sequences scanned together", derived=show(xs), expected="(latent_point, observation_sequence)", where=chk.where(m, lp))
     else:
